@@ -192,6 +192,18 @@ def check_history(case):
     last_failed = False
     kinds = set()
     n_score = 0
+    alt = case.get("alt_first")
+    if alt and data["kind"] in ("reg", "clf", "cluster"):
+        # the instance was used before on ANOTHER table of the same shape (other values): a fit that succeeds, or one that raises
+        # (a NaN target), both leave nothing behind that the fits below could pick up
+        Xa, ya, wa = R.materialize(data)
+        Xa = np.ascontiguousarray(Xa[::-1] * 0.5 + 0.25)
+        ya = None if ya is None else np.ascontiguousarray(ya[::-1])
+        if alt == "bad" and ya is not None and ya.dtype.kind == "f":
+            ya = ya.copy()
+            ya[0] = np.nan
+        np.random.seed(case["seed"] + 11)
+        _call_fit(entry, est, Xa, ya, wa, dict(facts, alt=alt))
     for op in case["ops"]:
         X, y, w = R.materialize(data)
         if op[0] == "fit":
@@ -241,7 +253,7 @@ def check_history(case):
     d = R.same_fingerprint(fa, fb, exact=entry.exact)
     require(d is None, "history:differs-from-fresh-clone" + (":after-failure" if n_fail else ""),
             "after the history (%d failed fits: %s) a successful fit differs from a fresh clone's: %s" % (n_fail, sorted(kinds), d), dict(facts, failures=n_fail))
-    return Outcome([name, "failed-fits=%d" % min(n_fail, 3), "score-calls" if n_score else "no-score-call"] + ["bad:" + k for k in sorted(kinds)], fail_then_ok or n_fail > 0)
+    return Outcome([name, "failed-fits=%d" % min(n_fail, 3), "score-calls" if n_score else "no-score-call", "used-before-on-another-table:" + str(alt or "no")] + ["bad:" + k for k in sorted(kinds)], fail_then_ok or n_fail > 0 or bool(alt))
 
 
 def _is_fitted(entry, est, data, X, y):
@@ -260,7 +272,7 @@ def _history_cases(draw, name, tier="quick"):
     for _ in range(draw(st.integers(2, 6))):
         k = draw(st.sampled_from(["fit", "bad", "bad", "out"]))
         ops.append([k, draw(st.sampled_from(BAD_KINDS))] if k == "bad" else [k])
-    return dict(cls=name, spec=spec, data=entry.data(draw), ops=ops, seed=draw(st.integers(0, 2**31 - 10)))
+    return dict(cls=name, spec=spec, data=entry.data(draw), ops=ops, seed=draw(st.integers(0, 2**31 - 10)), alt_first=draw(st.sampled_from([None, None, "good", "bad"])))
 
 
 # ------------------------------------------------------------------------------- fault enumeration
